@@ -2,7 +2,7 @@
 EXTENDS Bids, Json
 ColsDef == {"kind", "resp"}
 ExcludedDef == {"sourcedata", "derivatives", "code", "stimuli", "phenotype"}   \* BidsDataset's default exclude_dirs
-DecoyKindsDef == {"derivatives", "code", "othersuffix"}
+DecoyKindsDef == ExcludedDef \cup {"othersuffix"}
 NoExcluded == {}
 
 AllShapes == [nsub : 1..2, nses : 0..2, ntask : 1..2, nrun : 1..2]
@@ -21,7 +21,8 @@ AnyDecoy(sh, d) == TRUE
 TwoDecoy(sh, d) == d = {} \/ d = DecoyKindsDef
 NoDecoy(sh, d) == d = {}
 \* generation runs: one decoy set per shape (rotating), so that the number of trees stays replayable
-DecoyList == <<{"derivatives"}, {"code", "othersuffix"}, {}, {"derivatives", "othersuffix"}>>
+\* (the first set puts files into ALL default-excluded directories: neighbours in the directory listing, "phenotype" included)
+DecoyList == <<ExcludedDef, {"code", "othersuffix"}, {}, {"derivatives", "phenotype", "othersuffix"}>>
 RotDecoy(sh, d) == d = DecoyList[((sh.nsub + 2 * sh.nses + sh.ntask + 2 * sh.nrun) % 4) + 1]
 
 \* ---- emission: one JSON line per tree with what the specification prescribes for every file ----
